@@ -145,6 +145,16 @@ def lockset (L : Layout) (t : Task) : List Sub :=
     (match ngbUp L ax t.g with | some n => if n = t.g then [t.g] else [t.g, n] | none => [t.g])
   | _ => [t.g]
 
+/-- the index of a subgrid in the creator's list (x-major), the key the code sorts locks on -/
+def subIndex (L : Layout) (g : Sub) : Nat := g.1 * L.ny * L.nz + g.2.1 * L.nz + g.2.2
+
+/-- the ORDER in which a task takes its locks (`set_dependency` first, `set_extra_dependency`
+second): "avoid dining philosophers by sorting the dependencies on subgrid index" -/
+def lockOrder (L : Layout) (t : Task) : List Sub :=
+  match lockset L t with
+  | [a, b] => if subIndex L a < subIndex L b then [a, b] else [b, a]
+  | l => l
+
 def phase : Slot → Nat
   | .gradInt | .gradUp _ | .gradDown _ => 0
   | .limiter => 1 | .predict => 2
